@@ -5,3 +5,4 @@ import Thanos.Props.C08
 import Thanos.Props.C09
 import Thanos.Props.C07
 import Thanos.Props.C10
+import Thanos.Props.C10Postings
